@@ -4,9 +4,9 @@ use crate::support::*;
 use educe::Educe;
 use core::cmp::Ordering;
 #[derive(Educe)]
-#[educe(PartialEq)]
-pub enum T { Unit { #[educe(PartialEq(method = m_eq))] y: A<0>, r#type: A<1>, c: A<2>, #[educe(PartialEq(ignore))] x: A<3> }, B { #[educe(PartialEq(ignore(true)))] y: A<0>, #[educe(PartialEq = false)] data: A<1>, #[educe(PartialEq(method = "m_eq"))] r#type: A<2>, #[educe(PartialEq = true)] arg: A<3> } }
-pub fn values() -> Vec<T> { vec![T::Unit { y: A(7), r#type: A(0), c: A(0), x: A(7) }, T::Unit { y: A(0), r#type: A(1), c: A(7), x: A(7) }, T::Unit { y: A(7), r#type: A(7), c: A(7), x: A(0) }, T::Unit { y: A(7), r#type: A(0), c: A(1), x: A(7) }, T::Unit { y: A(0), r#type: A(7), c: A(0), x: A(7) }, T::Unit { y: A(1), r#type: A(7), c: A(0), x: A(1) }, T::Unit { y: A(0), r#type: A(1), c: A(1), x: A(7) }, T::Unit { y: A(0), r#type: A(1), c: A(7), x: A(0) }, T::Unit { y: A(0), r#type: A(7), c: A(1), x: A(7) }, T::Unit { y: A(0), r#type: A(7), c: A(7), x: A(0) }, T::Unit { y: A(0), r#type: A(7), c: A(1), x: A(1) }, T::Unit { y: A(1), r#type: A(1), c: A(7), x: A(0) }, T::Unit { y: A(7), r#type: A(7), c: A(0), x: A(1) }, T::Unit { y: A(7), r#type: A(1), c: A(1), x: A(7) }, T::Unit { y: A(1), r#type: A(1), c: A(0), x: A(7) }, T::Unit { y: A(0), r#type: A(1), c: A(1), x: A(1) }, T::Unit { y: A(7), r#type: A(1), c: A(0), x: A(7) }, T::Unit { y: A(0), r#type: A(7), c: A(1), x: A(0) }, T::Unit { y: A(7), r#type: A(7), c: A(7), x: A(1) }, T::Unit { y: A(0), r#type: A(0), c: A(7), x: A(1) }, T::Unit { y: A(0), r#type: A(0), c: A(7), x: A(7) }, T::Unit { y: A(7), r#type: A(1), c: A(7), x: A(1) }, T::Unit { y: A(7), r#type: A(7), c: A(1), x: A(0) }, T::Unit { y: A(0), r#type: A(0), c: A(1), x: A(1) }, T::B { y: A(0), data: A(7), r#type: A(1), arg: A(0) }, T::B { y: A(7), data: A(0), r#type: A(7), arg: A(0) }, T::B { y: A(7), data: A(0), r#type: A(0), arg: A(7) }, T::B { y: A(7), data: A(7), r#type: A(0), arg: A(0) }, T::B { y: A(7), data: A(0), r#type: A(7), arg: A(1) }, T::B { y: A(1), data: A(7), r#type: A(0), arg: A(1) }, T::B { y: A(0), data: A(1), r#type: A(0), arg: A(0) }, T::B { y: A(1), data: A(0), r#type: A(1), arg: A(0) }, T::B { y: A(7), data: A(7), r#type: A(1), arg: A(0) }, T::B { y: A(7), data: A(0), r#type: A(0), arg: A(1) }, T::B { y: A(7), data: A(1), r#type: A(7), arg: A(0) }, T::B { y: A(7), data: A(1), r#type: A(7), arg: A(7) }, T::B { y: A(1), data: A(7), r#type: A(0), arg: A(0) }, T::B { y: A(0), data: A(1), r#type: A(7), arg: A(7) }, T::B { y: A(0), data: A(1), r#type: A(7), arg: A(1) }, T::B { y: A(1), data: A(0), r#type: A(7), arg: A(1) }, T::B { y: A(1), data: A(1), r#type: A(7), arg: A(7) }, T::B { y: A(1), data: A(1), r#type: A(0), arg: A(0) }, T::B { y: A(1), data: A(0), r#type: A(0), arg: A(0) }, T::B { y: A(0), data: A(7), r#type: A(0), arg: A(0) }, T::B { y: A(1), data: A(7), r#type: A(1), arg: A(0) }, T::B { y: A(7), data: A(1), r#type: A(0), arg: A(7) }, T::B { y: A(1), data: A(7), r#type: A(7), arg: A(7) }, T::B { y: A(1), data: A(7), r#type: A(0), arg: A(7) }] }
-pub fn show(x: &T) -> String { #[allow(unused_variables)] match x { T::Unit { y: p0, r#type: p1, c: p2, x: p3 } => format!("Unit({},{},{},{})", sv(p0), sv(p1), sv(p2), sv(p3)), T::B { y: p0, data: p1, r#type: p2, arg: p3 } => format!("B({},{},{},{})", sv(p0), sv(p1), sv(p2), sv(p3)) } }
-pub fn o_eq(a: &T, b: &T) -> bool { match (a, b) { (T::Unit { y: a0, r#type: a1, c: a2, x: a3 }, T::Unit { y: b0, r#type: b1, c: b2, x: b3 }) => m_eq(a0, b0) && (a1 == b1) && (a2 == b2), (T::B { y: a0, data: a1, r#type: a2, arg: a3 }, T::B { y: b0, data: b1, r#type: b2, arg: b3 }) => m_eq(a2, b2) && (a3 == b3), _ => false } }
+#[educe(PartialEq, Eq)]
+pub enum T { Zed, A() }
+pub fn values() -> Vec<T> { vec![T::Zed, T::A()] }
+pub fn show(x: &T) -> String { #[allow(unused_variables)] match x { T::Zed => format!("Zed()"), T::A() => format!("A()") } }
+pub fn o_eq(a: &T, b: &T) -> bool { match (a, b) { (T::Zed, T::Zed) => true, (T::A(), T::A()) => true, _ => false } }
 pub fn run(out: &mut Out) { let vs = values(); for a in &vs { for b in &vs { let e = o_eq(a, b); out.check((a == b) == e, "eq_17", "eq", || format!("{} == {} expected {}", show(a), show(b), e)); out.check((a != b) == !e, "eq_17", "ne", || format!("{} != {} expected {}", show(a), show(b), !e)); } } }
